@@ -74,6 +74,18 @@ func (propC15) Gen(seed uint64, ex map[string]bool) interface{} {
 		sc.Loaders = append(sc.Loaders, pick(r, kinds))
 	}
 	sc.Names = []string{"a", "b", "c", "d"}[:r.Range(1, maxNames)]
+	inMemory := true
+	for _, k := range sc.Loaders {
+		if k == "fs" || k == "compiled" {
+			inMemory = false
+		}
+	}
+	if inMemory && r.P(30) {
+		// different spellings that a path-cleaning step would fold together; for in-memory loaders and for the cache
+		// they are simply different names
+		sc.Names = []string{"a", "./a", "x/../a", "a//b", "a/b"}[:r.Range(2, 5)]
+	}
+	odd := len(sc.Names[len(sc.Names)-1]) != 1
 	n := r.Range(6, maxOps)
 	cacheOn := true
 	grow := nl > 1 && r.P(40) // histories in which the loader list itself changes (never together with a racing writer)
@@ -82,7 +94,11 @@ func (propC15) Gen(seed uint64, ex map[string]bool) interface{} {
 		l := r.N(nl)
 		if grow && r.P(6) {
 			if r.P(50) && nl < 5 {
-				sc.Ops = append(sc.Ops, c15Op{K: "addloader", Via: r.N(len(c15Kinds))})
+				via := r.N(len(c15Kinds))
+				if odd {
+					via = pick(r, []int{0, 1, 2, 5}) // in-memory kinds only: a directory would alias the spellings
+				}
+				sc.Ops = append(sc.Ops, c15Op{K: "addloader", Via: via})
 				nl++
 			} else {
 				sc.Ops = append(sc.Ops, c15Op{K: "chainadd", L: l})
@@ -666,6 +682,9 @@ func (propC15) Run(scI interface{}) (o *Outcome) {
 				}
 			} else {
 				top, pre := op.Name, ""
+				if len(op.Name) != 1 {
+					op.Via = 0 // wrapper templates exist for the plain names only
+				}
 				switch op.Via {
 				case 1: // the name is reached through an include in a fixed wrapper template
 					top, pre = "winc_"+op.Name, "<inc>"
